@@ -35,3 +35,10 @@ META["C15"] = {
              "within that alphabet, sampled beyond."),
     "note": "The reference interpreter (lib/refunpack) is the trusted base; archives are written with archive/tar.",
 }
+META["C12"] = {
+    "technique": "fault enumeration: every writer/reader byte offset (and every builder callback position) per rapid-generated subject",
+    "text": ("For each generated tree/archive/world the fault position is enumerated completely - every output byte offset for Pack, every "
+             "input offset (truncation and read error) for Unpack, every fetch/registry/finder call and pairs of them for bundle builds with an "
+             "OpenDir probe at every callback boundary - and the reported outcome is checked against 'error, or complete result'."),
+    "note": "Subjects are sampled by rapid; positions per subject are exhaustive up to the stated size limits.",
+}
